@@ -5,8 +5,9 @@ LEVEL = "other"
 TECHNIQUE = "bounded contract check (CBMC) of the real print_to_with scanner against an independent tokenizer, one format string per obligation set over the property's grammar, sinks and libc formatting cut by contracts that tokenise whatever text they are handed (any grouping of literal text and specifications into sink calls is accepted)"
 LEVEL_TEXT = ("What Cello adds to C formatting is the scanner and the sinks, and that is what is under contract: for each of an enumerated set of well-formed formats (literal runs, %%, "
               "specifications with flags / width / precision / length modifier and every conversion d i u o x X c s f F e E g G a A p and %$, at the very start, the very end and adjacent), "
-              "with symbolic argument values and start position, the pieces handed to the sink are exactly the tokens an independent tokenizer produces, verbatim and NUL-terminated, each paired "
-              "with the next argument fetched through the matching accessor; the returned position is start + the sum of the lengths the sink reports; too few arguments raise FormatError; "
+              "with symbolic argument values and start position, the text handed to the sink - in whatever grouping into calls - is, concatenated, exactly the token sequence an independent tokenizer "
+              "produces: every literal character, % for %%, and each specification verbatim, each paired with the next argument fetched through the accessor its conversion letter names (a long double "
+              "under the L modifier); the returned position is start + one per literal character + the lengths the sink reports for the conversions; too few arguments raise FormatError; "
               "every read stays inside the format and every write inside the scratch buffer. String_Format_To (room for the text and its terminator, C16 harness) and File_Format_To "
               "(C20 harness) are the two sinks. That the characters equal printf's is libc's (assumed).")
 NOTE = "libc v*printf semantics assumed; formats are an enumerated set, not all strings of the grammar; container show under contract for Array, List, Tuple, Table (capacity <= 3 (5)) and Tree (<= 4 nodes)"
